@@ -58,6 +58,8 @@ func (c *Ctx) RepoProg() *Prog {
 	c.Note("E0: loaded %d module packages, %d reachable module functions", len(p.Pkgs), len(p.Reach))
 	p.GM = gm
 	repoProg = p
+	oa := newOrderAnalysis(c, p)
+	purityOracle = func(f *ssa.Function) bool { return f != nil && oa.isPure(f) }
 	return p
 }
 
